@@ -28,13 +28,16 @@ struct Cfg {
     with_empty: bool,
     /// the objects are supplied as streams (in-memory cursor / file on disk) instead of buffers
     stream: bool,
+    /// 0: FDT valid for one hour; 1 / 2: FDT valid for 2 s only, a stream twice as long, and late joiners ALSO started in
+    /// the last third of the stream, when the first instances have long expired (2: the sender has called set_complete())
+    aged: u8,
 }
 
 impl Cfg {
     fn name(&self) -> String {
         format!("{}|ib{}|ic{}|{}|n{}|{}|{}|mf{}|il{}|ff{}|{}", self.fec.name(), self.inband_fti, self.inband_cenc, self.cenc.name(), self.nobj,
             if self.interval { "interval" } else { "delay" }, if self.full_fdt { "full" } else { "obt" }, self.small_fdt_symbols, self.interleave, self.fdt_same_fec,
-            format!("{}{}", if self.paced { if self.with_empty { "paced+empty" } else { "paced" } } else if self.with_empty { "drain+empty" } else { "drain" }, if self.stream { "+stream" } else { "" }))
+            format!("{}{}", if self.paced { if self.with_empty { "paced+empty" } else { "paced" } } else if self.with_empty { "drain+empty" } else { "drain" }, format!("{}{}", if self.stream { "+stream" } else { "" }, ["", "+aged", "+aged+complete"][self.aged as usize])))
     }
 }
 
@@ -69,7 +72,7 @@ fn build(cfg: &Cfg, seed: u64) -> Result<Built, String> {
     spec.interleave = cfg.interleave;
     // paced runs with interleave 1: an FDT repetition every 8th packet slot
     spec.fdt_carousel = CarouselSpec::DelayMs(if cfg.paced && cfg.interleave == 1 { 40 } else { 150 });
-    spec.fdt_duration_s = 3600;
+    spec.fdt_duration_s = if cfg.aged > 0 { 2 } else { 3600 };
     // one configuration in three starts its FDT instance ids just below 2^20: in ObjectsBeingTransferred mode every
     // transfer start publishes a new instance, so the 20-bit id wraps while the late joiners listen
     let h = util::fnv(&cfg.name());
@@ -96,8 +99,11 @@ fn build(cfg: &Cfg, seed: u64) -> Result<Built, String> {
         script.push((When::Start, Op::Add(k)));
         objs.push(o);
     }
+    if cfg.aged == 2 {
+        script.push((When::Start, Op::SetComplete));
+    }
     script.push((When::Start, Op::Publish));
-    let mut opts = if cfg.paced { ScriptOpts::every(5, 2400) } else { ScriptOpts::every(50, 80) };
+    let mut opts = if cfg.paced { ScriptOpts::every(5, 2400) } else { ScriptOpts::every(50, if cfg.aged > 0 { 170 } else { 80 }) };
     opts.drain = !cfg.paced;
     opts.stop_when_empty = false;
     opts.max_packets = 30_000;
@@ -221,7 +227,9 @@ fn main() {
                                 paced: false,
                                 with_empty: false,
                                 stream: false,
+                                aged: 0,
                             });
+
                             let mut paced = cfgs.last().unwrap().clone();
                             paced.paced = true;
                             cfgs.push(paced.clone());
@@ -240,6 +248,13 @@ fn main() {
                                 cfgs.push(e.clone());
                                 e.paced = false;
                                 cfgs.push(e);
+                            }
+                            if v < 2 && cenc == CencSpec::Null {
+                                // short-lived FDT instances renewed while the carousel runs, late joiners in the last third
+                                let mut a = paced.clone();
+                                a.paced = false;
+                                a.aged = 1 + (v as u8 + inband_fti as u8) % 2;
+                                cfgs.push(a);
                             }
                         }
                     }
@@ -297,10 +312,13 @@ fn main() {
         eprintln!("C16: {} configurations built, {} not", built.len(), not_built);
         let built = Arc::new(built);
         const CH: usize = 24;
-        let mut plan: Vec<(usize, usize)> = vec![];
+        let mut plan: Vec<(usize, usize, bool)> = vec![];
         for (bi, b) in built.iter().enumerate() {
             for c in 0..b.cycle_len.div_ceil(CH) {
-                plan.push((bi, c));
+                plan.push((bi, c, false));
+                if b.cfg.aged > 0 {
+                    plan.push((bi, c, true));
+                }
             }
         }
         let n_plan = plan.len();
@@ -319,11 +337,17 @@ fn main() {
             cr
         }));
         gens.push(Gen::new("every_join_offset", n_plan, move |_ctx, i| {
-            let (bi, c) = plan[i];
+            let (bi, c, late) = plan[i];
             let b = &bb[bi];
             let mut cr = CaseResult::default();
-            // join offsets of the second cycle (the first one contains the session start)
-            let base = b.transfers.iter().filter_map(|t| t.first().map(|x| x.0)).min().unwrap_or(0);
+            // join offsets of the second cycle (the first one contains the session start); `late`: of the first cycle
+            // that starts in the last third of the stream (the FDT instances of the session start have expired)
+            let base = if late {
+                let from = b.run.stream.len() * 2 / 3;
+                b.transfers.iter().filter_map(|t| t.iter().map(|x| x.0).find(|s| *s >= from)).min().unwrap_or(from)
+            } else {
+                b.transfers.iter().filter_map(|t| t.first().map(|x| x.0)).min().unwrap_or(0)
+            };
             let (mut joins, mut completes, mut tolerated) = (0u64, 0u64, 0u64);
             for j in (base + c * CH)..(base + ((c + 1) * CH).min(b.cycle_len)) {
                 let end = match window_end(b, j) {
@@ -370,6 +394,7 @@ fn main() {
                             "{}: receiver joining at packet {} does not deliver object {} (TOI {}) within two further full cycles (window end {}); writers: {:?}", b.cfg.name(), j, k, toi, end, traces))
                             .with("fec", b.cfg.fec.name()).with("inband_fti", b.cfg.inband_fti).with("full_fdt", b.cfg.full_fdt).with("cenc", b.cfg.cenc.name()).with("inband_cenc", b.cfg.inband_cenc)
                             .with("join_kind", join_kind).with("no_writer", ws.is_empty()).with("receiver_keeps_failed_objects", j % 2 == 1).with("cleanup_after_every_push", j % 3 == 1)
+                            .with("joined_after_first_instances_expired", late).with("sender_set_complete", b.cfg.aged == 2)
                             .witness(wit(json!({"object": k, "writers": traces}))));
                     }
                     if let Some(w) = ws.last() {
@@ -394,7 +419,7 @@ fn main() {
             cr.count("objects_delivered", completes);
             cr.count("delivered_after_a_failed_attempt", tolerated);
             if completes > 0 {
-                cr.shape = Some(util::fnv(&format!("{}|{}", b.cfg.name(), c)));
+                cr.shape = Some(util::fnv(&format!("{}|{}|{}", b.cfg.name(), c, late)));
             }
             if c == 0 {
                 cr.sample = Some(json!({"config": b.cfg.name(), "cycle_length_packets": b.cycle_len, "stream_packets": b.run.stream.len(), "first_transfers": b.transfers.iter().map(|t| t.iter().take(3).collect::<Vec<_>>()).collect::<Vec<_>>(), "joins_in_chunk": joins}));
